@@ -39,8 +39,11 @@ func NewQueue[T any]() *Queue[T] {
 
 // Len returns the total number of items in the queue
 func (q *Queue[T]) Len() int {
+	// both counters only change under the write lock, read them consistently
+	q.mx.RLock()
 	writeCount := q.writeCount.Load()
 	readCount := q.readCount.Load()
+	q.mx.RUnlock()
 
 	if writeCount < readCount {
 		// The writeCount counter wrapped around
